@@ -637,29 +637,59 @@ func runC09(c *fw.Case) {
 		}
 	}
 	{
-		// type change with equal numerals / equal strings
-		m := sh.Clone()
-		changed := ""
-		for ci, col := range m.Cols {
-			if col.Kind == model.KInt {
-				okRange := true
+		// type change with the "same looking" content: Equals must see the different column type
+		perm := rng.Perm(len(sh.Cols))
+		for _, ci := range perm {
+			m := sh.Clone()
+			col := m.Cols[ci]
+			changed := ""
+			switch col.Kind {
+			case model.KInt:
+				okRange, zeroOne := true, true
 				for _, v := range col.I {
 					if v > 1<<50 || v < -(1<<50) {
 						okRange = false
 					}
+					if v != 0 && v != 1 {
+						zeroOne = false
+					}
 				}
-				if !okRange {
-					continue
+				if zeroOne && rng.Intn(2) == 0 {
+					bc := model.NewCol(col.Name, model.KBool, col.Len())
+					for r, v := range col.I {
+						bc.B[r] = v == 1
+					}
+					m.Cols[ci], changed = bc, "int column (0/1) as bool"
+				} else if okRange {
+					fc := model.NewCol(col.Name, model.KFloat, col.Len())
+					for r, v := range col.I {
+						fc.F[r] = float64(v)
+					}
+					m.Cols[ci], changed = fc, "int column as float"
 				}
-				fc := model.NewCol(col.Name, model.KFloat, col.Len())
-				for r, v := range col.I {
-					fc.F[r] = float64(v)
+			case model.KBool:
+				ic := model.NewCol(col.Name, model.KInt, col.Len())
+				for r, v := range col.B {
+					if v {
+						ic.I[r] = 1
+					}
 				}
-				m.Cols[ci] = fc
-				changed = "int column as float"
-				break
-			}
-			if col.Kind == model.KString {
+				m.Cols[ci], changed = ic, "bool column as int (0/1)"
+			case model.KFloat:
+				integral := true
+				for _, v := range col.F {
+					if math.IsNaN(v) || v != math.Trunc(v) || math.Abs(v) > 1<<50 {
+						integral = false
+					}
+				}
+				if integral {
+					ic := model.NewCol(col.Name, model.KInt, col.Len())
+					for r, v := range col.F {
+						ic.I[r] = int(v)
+					}
+					m.Cols[ci], changed = ic, "float column (integral) as int"
+				}
+			case model.KString:
 				ec := col.Clone()
 				ec.Kind, ec.EnumKnown, ec.EnumVals = model.KEnum, true, nil
 				distinct := map[string]bool{}
@@ -668,25 +698,22 @@ func runC09(c *fw.Case) {
 						distinct[*s] = true
 					}
 				}
-				if len(distinct) > 200 {
-					continue
+				if len(distinct) <= 200 {
+					m.Cols[ci], changed = ec, "string column as enum"
 				}
-				m.Cols[ci] = ec
-				changed = "string column as enum"
-				break
-			}
-			if col.Kind == model.KEnum {
+			case model.KEnum:
 				sc := col.Clone()
 				sc.Kind = model.KString
-				m.Cols[ci] = sc
-				changed = "enum column as string"
-				break
+				m.Cols[ci], changed = sc, "enum column as string"
 			}
-		}
-		if changed != "" {
+			if changed == "" {
+				continue
+			}
 			if mq := rebuildNew(m); mq.Err == nil {
-				equalsBoth(c, "f, rebuild with "+changed, qf, mq, false, "neg-type:"+firstWord(changed))
+				notes = append(notes, "negative: "+changed)
+				equalsBoth(c, "f, rebuild with "+changed, qf, mq, false, "neg-type:"+strings.ReplaceAll(changed, " ", "-"))
 			}
+			break
 		}
 	}
 	if n > 0 {
